@@ -42,8 +42,8 @@ from specs.valence import check_valence
 from props import C01 as base
 
 ID = 'C09'
-LEVEL = 'exploration'
-P_TARGETS = []
+LEVEL = 'other'
+P_TARGETS = ['cgsmiles.pysmiles_utils:rebuild_h_atoms']
 BUDGET = {'quick': 30.0, 'thorough': 300.0}
 CHUNK = 50
 BOUNDS = {
